@@ -36,7 +36,8 @@ ASSUMPTIONS = [
     'the recorded witnesses); tie to /repo: network limits from Gen/GenNetworks.v + differential correspondence against '
     'real sqlite wallets on every run',
     'wallet view = the wallet\'s output rows in database insertion order; that sqlite returns ties of ORDER BY '
-    'confirmations in this order is validated by the correspondence only (SQL leaves it open)',
+    'confirmations in this order (and, for an input_key_id list of two or more keys, grouped by key: Model/TxCreateHistory.v '
+    'key_order) is validated by the correspondence only (SQL leaves it open)',
     'binary64 expressions (fee = int(size/1000.0*fee_per_kb), rate, dirichlet change split, 10 % re-creation test) are '
     'modelled exactly on rationals with round-to-nearest-even to 53 bits; exponent range (overflow/subnormal), '
     'numpy int64 wrap-around (amounts >= 2^63) and vsize = 0 are not modelled',
